@@ -172,7 +172,12 @@ TQuiesce ==
     /\ Ev.n = 0            \* the real counters, read through the hook
     /\ Skip /\ UNCHANGED <<stopCalled, hung>>
 
-TStopCall == Step("StopCall") /\ stopCalled' = TRUE /\ Skip /\ UNCHANGED hung
+\* Close() is about to be called.  In an RPC run its first statement (the listener's close) is taken at once:
+\* it commutes with everything an RPC run logs (it only makes later lines easier to explain); in a connection
+\* run it decides whether an attempt is still accepted, so there it stays a hidden step.
+TStopCall ==
+    /\ Step("StopCall") /\ stopCalled' = TRUE /\ UNCHANGED hung
+    /\ IF Ev.fam = "rpc" /\ G_CloseListener THEN CloseListener ELSE Skip
 TStopReturn == Step("StopReturn") /\ StopReturn /\ UNCHANGED <<stopCalled, hung>>
 
 TThAdd ==
